@@ -6,4 +6,8 @@ mkdir -p /verif/target /verif/evidence /verif/replays
 cd /verif/mc
 cargo build --release --offline --workspace 2>&1 | tail -3
 python3-vt /verif/audit/audit.py /verif/target/release/refaudit quick
+# the Python extension for C17 (dev profile; rebuilt incrementally by ./check C17)
+mkdir -p /verif/target/py/site
+(cd /repo && PYO3_PYTHON=/opt/veriftools/pyvenv/bin/python cargo rustc --lib --features python --offline --crate-type cdylib --target-dir /verif/target/py -q 2>&1 | tail -3)
+cp /verif/target/py/debug/libnum_dual.so /verif/target/py/site/num_dual.abi3.so
 echo "setup ok"
